@@ -14,6 +14,7 @@ from typing import Any
 import libcst as cst
 
 import pynguin.assertion.assertion as ass
+import pynguin.configuration as config
 import pynguin.utils.type_utils as tu
 from pynguin.utils.naming import get_module_alias
 
@@ -153,6 +154,10 @@ def _value_to_cst(value: Any) -> cst.BaseExpression:  # noqa: C901
         return cst.Name("None")
     if isinstance(value, bool):
         return cst.Name("True" if value else "False")
+    if tu.is_enum(type(value)):
+        # Before the primitives: members of IntEnum, StrEnum, IntFlag, ... are
+        # instances of int or str as well, but their repr is not a literal.
+        return _enum_member_to_cst(value)
     if isinstance(value, int):
         if value < 0:
             return cst.UnaryOperation(operator=cst.Minus(), expression=cst.Integer(str(-value)))
@@ -173,11 +178,6 @@ def _value_to_cst(value: Any) -> cst.BaseExpression:  # noqa: C901
                 cst.Arg(value=_make_float_literal(value.imag)),
             ],
         )
-    if tu.is_enum(type(value)):
-        # EnumClass.MEMBER
-        class_name = type(value).__name__
-        member_name = value.name
-        return cst.Attribute(value=cst.Name(class_name), attr=cst.Name(member_name))
     typ = type(value)
     if tu.is_list(typ):
         return cst.List(elements=[cst.Element(value=_value_to_cst(v)) for v in value])
@@ -206,6 +206,30 @@ def _value_to_cst(value: Any) -> cst.BaseExpression:  # noqa: C901
             ]
         )
     return cst.SimpleString(repr(value))
+
+
+def _enum_member_to_cst(value: Any) -> cst.BaseExpression:
+    """Convert an enum member to a libcst expression.
+
+    Args:
+        value: The enum member.
+
+    Returns:
+        ``EnumClass.MEMBER``, or ``EnumClass(<value>)`` for pseudo-members without a
+        member name such as ``Perm.R | Perm.W`` or ``Perm(0)``.
+    """
+    enum_class = type(value)
+    if enum_class.__module__ == config.configuration.module_name:
+        # Defined in the module under test: reachable through the module alias,
+        # also if it is nested in a class or not a public name.
+        class_expr: cst.BaseExpression = cst.Name(get_module_alias(enum_class.__module__))
+        for part in enum_class.__qualname__.split("."):
+            class_expr = cst.Attribute(value=class_expr, attr=cst.Name(part))
+    else:
+        class_expr = cst.Name(enum_class.__name__)
+    if isinstance(value.name, str) and value.name.isidentifier():
+        return cst.Attribute(value=class_expr, attr=cst.Name(value.name))
+    return cst.Call(func=class_expr, args=[cst.Arg(value=_value_to_cst(value.value))])
 
 
 def _type_name_assertion_to_cst(assertion: ass.TypeNameAssertion) -> cst.SimpleStatementLine:
